@@ -9,7 +9,8 @@ CFG = {
             "from a filtered address, use, close, advance the clock by 0.25-3x the timeout incl. exactly the timeout + reaper "
             "tick), then either Stop (45%; in 45% of those the quiet Stop is replaced by 1-3 requests - LOOKUP of a new file, "
             "MKDIR, WRITE over TCP - held 300-700 ms inside a backend call while Stop, Close or Unexport is called from another "
-            "goroutine), concurrent churn of 3-8 clients x 3-8 connections (35%) or churn with Stop in the "
+            "goroutine; in half of these TWO shutdown calls overlap, the second 50-150 ms later: Stop||Stop, Unexport||Stop and, in the "
+            "quick tier only, Close||Unexport, Close||Close - every call is observed right after it returns), concurrent churn of 3-8 clients x 3-8 connections (35%) or churn with Stop in the "
             "middle of a second burst (20%); then Close/Close, Close/Unexport/Stop, Unexport/Close/Close or "
             "Stop/Close/Unexport/Close; non-trivial = a connection was refused at the limit, reaped, or churned concurrently; "
             "distinct = distinct observed trace",
@@ -34,5 +35,7 @@ CFG = {
                   "behind after a handler timeout is not a connection goroutine and is outside this model (C16 covers it). "
                   "Held backend calls last 300-700 ms, well below Stop's 5 s grace: a backend call that outlasts the grace period "
                   "(Stop then returns an error with the request still running) is outside what the stream samples. "
+                  "Close||Unexport and Close||Close write AbsfsNFS.exportServer from both goroutines (a data race in the library, which "
+                  "does not document concurrent use of the two): they are left out of the -race build of the thorough tier. "
                   "Trusted: Coq kernel, Model/ConnLTS.v, harness/cmd/drive_lts, verif_hooks_lts.go, the goroutine-dump filter.",
 }
